@@ -940,7 +940,7 @@ def gen_ops(rng, ref, nops, bias_guards=True, focus=False):
         return "-", "-"
     guards = sorted({g for fp in flat for g in fp.hard + fp.soft})
     sels = sorted({fp.sel for fp in flat if fp.sel is not None})
-    plan = []
+    plan, n_on = [], 1
     if focus and guards:
         # switches that govern ports of their own directory (rSelf, "name/toggle" forms) are rarer: half of
         # the focused files are about one of them
@@ -949,6 +949,17 @@ def gen_ops(rng, ref, nops, bias_guards=True, focus=False):
         g = rng.choice(own) if (own and rng.random() < 0.5) else rng.choice(guards)
         below = [i for i, fp in enumerate(flat) if g in fp.hard + fp.soft]
         plan = [g] + rng.sample(below, min(len(below), 2))
+        # nested guards: a switch that is itself governed by another switch (a self-enabled sub-tree inside an
+        # enabled / pointer sub-tree).  Both switches on, the inner one first in the plan's file order, then a
+        # port below the inner one: the inner switch's line depends on the outer switch's line through the
+        # directories ABOVE the one it governs
+        nested = [(g1, g2) for g2 in guards for g1 in flat[g2].hard + flat[g2].soft if g1 != g2]
+        nested_own = [(g1, g2) for g1, g2 in nested if g2 in own]
+        if nested and rng.random() < 0.6:
+            g1, g2 = rng.choice(nested_own) if (nested_own and rng.random() < 0.7) else rng.choice(nested)
+            below2 = [i for i, fp in enumerate(flat) if g2 in fp.hard + fp.soft and i != g1]
+            plan = [g1, g2] + rng.sample(below2, min(len(below2), 1))
+            n_on = 2
     for n_op in range(nops):
         r = rng.random()
         if n_op < len(plan):
@@ -962,7 +973,7 @@ def gen_ops(rng, ref, nops, bias_guards=True, focus=False):
         p = flat[i].leaf
         k = rng.randrange(p.n) if p.is_array() else 0
         v = gen_incoming(rng, p)
-        if n_op == 0 and plan and v[0] in ("T", "F"):
+        if n_op < n_on and plan and v[0] in ("T", "F"):
             v = ("T", None)
         if flat[i].sel is None and i in sels and v[0] in ("i", "c") and rng.random() < 0.7:
             # selectors mostly inside their table
